@@ -124,35 +124,97 @@ def sdp_budget(ctx):
     cont = len(const(cs.args[0])) if isinstance(cs, ast.Call) and cs.args and is_const(cs.args[0]) else None
     R.check(cont == 2, rule, f'{SRV}.CONTINUATION_STATE', 'continuation state is 2 bytes (length byte + 1 byte)', f'continuation state literal has {cont} bytes', '')
     # search response: header + total count (2) + current count (2) + handles (4 each) + continuation
+    from .. import sym
+
+    def mtu_minus(e):
+        """e == <something>.peer_mtu - k  -> k"""
+        lf = sym.lin(e)
+        if lf is None:
+            return None
+        atoms = {a: v for a, v in lf.items() if a and v}
+        if len(atoms) == 1 and next(iter(atoms)).endswith('.peer_mtu') and next(iter(atoms.values())) == 1:
+            return -lf.get('', 0)
+        return None
     ss = srv.methods.get('on_sdp_service_search_request')
     if ss is not None and hdr and cont:
         need = hdr + 2 + 2 + cont
-        v = [norm(n.value) for n in walk_local(ss) if isinstance(n, ast.Assign) and dotted(n.targets[0]) == 'maximum_service_record_count']
-        R.check(v == [f'(self.channel.peer_mtu - {need}) // 4'], rule, f'{SRV}.on_sdp_service_search_request | capacity', f'(peer_mtu - {need}) // 4 handles: {hdr} header + 2 + 2 counts + {cont} continuation', f'capacity {v} does not equal (peer_mtu - {need}) // 4', p.loc(ss))
-        s = norm(ss)
-        R.check('service_record_handles_remaining = service_record_handles[maximum_service_record_count:]' in s and 'service_record_handles = service_record_handles[:maximum_service_record_count]' in s, rule, f'{SRV}.on_sdp_service_search_request | split', 'sent prefix and kept remainder split at the same index', 'handle list split changed', p.loc(ss))
+        v = [n.value for n in walk_local(ss) if isinstance(n, ast.Assign) and dotted(n.targets[0]) == 'maximum_service_record_count']
+        ok = len(v) == 1 and isinstance(v[0], ast.BinOp) and isinstance(v[0].op, ast.FloorDiv) and is_const(v[0].right) and const(v[0].right) == 4 and mtu_minus(v[0].left) == need
+        R.check(ok, rule, f'{SRV}.on_sdp_service_search_request | capacity', f'(peer_mtu - {need}) // 4 handles: {hdr} header + 2 + 2 counts + {cont} continuation', f'capacity `{norm(v[0]) if v else None}` does not equal (peer_mtu - {need}) // 4', p.loc(ss))
+        cuts = [slice_parts(n.value) for n in walk_local(ss) if isinstance(n, ast.Assign) and slice_parts(n.value) and slice_parts(n.value)[0] == 'service_record_handles']
+        R.check(('service_record_handles', '0', 'maximum_service_record_count') in cuts and ('service_record_handles', 'maximum_service_record_count', None) in cuts, rule, f'{SRV}.on_sdp_service_search_request | split', 'sent prefix and kept remainder split at the same index', f'handle list split {cuts}', p.loc(ss))
     for hname in ('on_sdp_service_attribute_request', 'on_sdp_service_search_attribute_request'):
         h = srv.methods.get(hname)
         if h is None:
             R.bad(rule, f'{SRV}.{hname}', 'anchor missing')
             continue
         need = hdr + 2 + cont if hdr and cont else None
-        v = [norm(n.value) for n in walk_local(h) if isinstance(n, ast.Assign) and dotted(n.targets[0]) == 'maximum_attribute_byte_count']
-        R.check(v == [f'min(request.maximum_attribute_byte_count, self.channel.peer_mtu - {need})'], rule, f'{SRV}.{hname} | capacity', f'min(requested, peer_mtu - {need}): {hdr} header + 2 byte count + {cont} continuation', f'capacity {v} does not equal peer_mtu - {need}', p.loc(h))
+        v = [n.value for n in walk_local(h) if isinstance(n, ast.Assign) and dotted(n.targets[0]) == 'maximum_attribute_byte_count']
+        ok = len(v) == 1 and isinstance(v[0], ast.Call) and dotted(v[0].func) == 'min' and len(v[0].args) == 2
+        if ok:
+            ks = [mtu_minus(a) for a in v[0].args]
+            other = [norm(a) for a, k in zip(v[0].args, ks) if k is None]
+            ok = need in ks and other == ['request.maximum_attribute_byte_count']
+        R.check(ok, rule, f'{SRV}.{hname} | capacity', f'min(requested, peer_mtu - {need}): {hdr} header + 2 byte count + {cont} continuation', f'capacity `{norm(v[0]) if v else None}` is not min(requested, peer_mtu - {need})', p.loc(h))
     g = srv.methods.get('get_next_response_payload')
     if g is not None:
-        iff = next((n for n in g.body if isinstance(n, ast.If)), None)
-        ok = iff is not None and norm(iff.test) == 'len(self.current_response) > maximum_size'
-        if ok:
-            more = {dotted(n.targets[0]): (slice_parts(n.value) or norm(n.value)) for n in iff.body if isinstance(n, ast.Assign)}
-            last = {dotted(n.targets[0]): norm(n.value) for n in iff.orelse if isinstance(n, ast.Assign)}
-            ok = more.get('payload') == ('self.current_response', '0', 'maximum_size') and more.get('self.current_response') == ('self.current_response', 'maximum_size', None) and more.get('continuation_state') == 'Server.CONTINUATION_STATE' \
-                and last.get('payload') == 'self.current_response' and last.get('continuation_state') == 'bytes([0])' and last.get('self.current_response') == 'None'
-        R.check(ok, rule, f'{SRV}.get_next_response_payload', 'more chunks only while len > max; the chunk that fits is final (no continuation, partial response dropped); split at the same index', 'chunking of a continued response changed: a response whose length is a multiple of the capacity is left with an empty partial response', p.loc(g))
+        res = paths.run(g, sym.Sym(no_subst=sym.object_locals(g)), sym.Sym.init())
+        bad = []
+        kinds = set()
+        cur = 'at(self.current_response, 0)'
+        size = g.args.args[1].arg
+        for k, facts, store, extra, w in sym.exits(res):
+            try:
+                ret = ast.parse(store.get('<return>', ''), mode='eval').body
+            except SyntaxError:
+                ret = None
+            if not (isinstance(ret, ast.Tuple) and len(ret.elts) == 2):
+                bad.append(f'returns {store.get("<return>")}')
+                continue
+            payload, cstate = ret.elts
+            more = norm(cstate) not in ('bytes([0])', "b'\\x00'")
+            kinds.add(more)
+            too_long = next((t for a, t in facts.items() if sym.same_ineq(a, f'len({cur}) > {size}') ), None)
+            fits = next((True for a, t in facts.items() if sym.same_ineq(sym.ineq(a, t), sym.ineq(f'len({cur}) > {size}', False))), None)
+            longer = next((True for a, t in facts.items() if sym.same_ineq(sym.ineq(a, t), sym.ineq(f'len({cur}) > {size}', True))), None)
+            left = store.get('self.current_response')
+            if more:
+                if not longer:
+                    bad.append(f'a continuation is announced although the rest may fit ({" ".join(w)})')
+                if slice_parts(payload) != (cur, '0', size) or left != f'{cur}[{size}:]':
+                    bad.append(f'chunk {norm(payload)} / remainder {left} do not split the response at {size}')
+                if norm(cstate) not in ('Server.CONTINUATION_STATE', 'self.CONTINUATION_STATE'):
+                    bad.append(f'continuation state {norm(cstate)}')
+            else:
+                if not fits:
+                    bad.append(f'the response is declared complete although more than {size} bytes may remain ({" ".join(w)})')
+                if norm(payload) != cur or left != 'None':
+                    bad.append(f'final chunk {norm(payload)} / remainder {left}: the partial response is not sent whole and dropped')
+        R.check(kinds == {True, False} and not bad, rule, f'{SRV}.get_next_response_payload', 'more chunks only while len > max; the chunk that fits is final (no continuation, partial response dropped); split at the same index',
+                'chunking of a continued response is wrong (e.g. a response whose length is a multiple of the capacity is left with an empty partial response)', p.loc(g), bad[:3])
     cc = srv.methods.get('check_continuation')
     if cc is not None:
-        s = norm(cc)
-        R.check('self.current_response is None or continuation_state != self.CONTINUATION_STATE' in s and 'if len(continuation_state) > 1:' in s, rule, f'{SRV}.check_continuation', 'a continuation is refused only when no partial response exists (None) or the state does not match', 'validity test of a continuation request changed', p.loc(cc))
+        res = paths.run(cc, sym.Sym(), sym.Sym.init())
+        bad = []
+        seen = set()
+        cs = cc.args.args[1].arg
+        for k, facts, store, extra, w in sym.exits(res):
+            r = store.get('<return>')
+            seen.add(r)
+            is_cont = sym.holds(facts, f'len({cs}) > 1')
+            if r == 'True':
+                if not (is_cont and sym.holds(facts, 'self.current_response is None', False) and (sym.holds(facts, f'{cs} == self.CONTINUATION_STATE') or sym.holds(facts, f'{cs} == Server.CONTINUATION_STATE'))):
+                    bad.append(f'a continuation is accepted without a partial response and a matching state ({" ".join(w)})')
+            elif r == 'False':
+                if sym.holds(facts, f'len({cs}) > 1') or store.get('self.current_response') != 'None':
+                    bad.append(f'a fresh request does not discard the previous partial response ({" ".join(w)})')
+            elif r == 'None':
+                if not is_cont or (sym.holds(facts, 'self.current_response is None', False) and (sym.holds(facts, f'{cs} == self.CONTINUATION_STATE'))):
+                    bad.append(f'a valid continuation is refused ({" ".join(w)})')
+        R.check(seen == {'True', 'False', 'None'} and not bad, rule, f'{SRV}.check_continuation', 'a continuation is accepted iff a partial response exists and the state matches; a fresh request discards any leftover',
+                'validity test of a continuation request changed', p.loc(cc), bad[:3])
+        errs = [c for c in calls_in(cc) if call_attr(c) == 'SDP_ErrorResponse']
+        R.check(len(errs) == 1 and 'INVALID_CONTINUATION_STATE' in norm(errs[0]), rule, f'{SRV}.check_continuation | refusal', 'refused with INVALID_CONTINUATION_STATE', 'invalid continuation is not answered with INVALID_CONTINUATION_STATE', p.loc(cc))
 
 
 def sdp_watchdog(ctx):
@@ -183,39 +245,106 @@ def sdp_watchdog(ctx):
 
 
 def avdtp_single(ctx):
+    from .. import sym
     R, p = ctx.r, ctx.p
     rule = 'C19.avdtp-single'
     fn = p.find('bumble.avdtp.Protocol.send_message')
     if fn is None:
         R.bad(rule, 'bumble.avdtp.Protocol.send_message', 'anchor missing')
         return
-    d = {dotted(n.targets[0]): norm(n.value) for n in walk_local(fn) if isinstance(n, ast.Assign) and len(n.targets) == 1 and isinstance(n.targets[0], ast.Name)}
-    R.check(d.get('max_fragment_size') == 'self.l2cap_channel.peer_mtu - 3', rule, 'bumble.avdtp.Protocol.send_message | fragment size', 'fragments of peer_mtu - 3 bytes leave room for the 3-byte start header', f'max_fragment_size = {d.get("max_fragment_size")}', p.loc(fn))
-    guard = next((n for n in fn.body if isinstance(n, ast.If) and 'SINGLE_PACKET' in norm(n)), None)
-    R.check(guard is not None and norm(guard.test) == 'len(payload) + 2 <= self.l2cap_channel.peer_mtu', rule, 'bumble.avdtp.Protocol.send_message | single-packet guard', 'single packet iff payload + 2-byte header fits the peer MTU', f'single-packet guard is `{norm(guard.test) if guard else None}`', p.loc(fn))
-    # the amount written for a single packet is the whole payload
-    fs = [n.value for n in walk_local(fn) if isinstance(n, ast.Assign) and dotted(n.targets[0]) == 'fragment_size']
-    ok = len(fs) == 1 and isinstance(fs[0], ast.IfExp) and norm(fs[0].test) == 'packet_type == self.PacketType.SINGLE_PACKET' and norm(fs[0].body) == 'len(payload)' and norm(fs[0].orelse) == 'max_fragment_size'
-    writes = [c for c in calls_in(fn) if dotted(c.func) == 'self.l2cap_channel.write']
-    wr_ok = len(writes) == 1 and norm(writes[0].args[0]) == 'header + payload[:fragment_size]'
-    adv = [slice_parts(n.value) for n in walk_local(fn) if isinstance(n, ast.Assign) and dotted(n.targets[0]) == 'payload' and slice_parts(n.value)]
-    R.check(ok and wr_ok and adv == [('payload', 'fragment_size', None)], rule, 'bumble.avdtp.Protocol.send_message | guard/slice agreement', 'a single packet carries all of the payload the guard admitted; what is written is what is consumed',
-            'the single-packet guard admits payloads the slice then truncates (or written and consumed amounts differ): the tail goes out as a stray packet', p.loc(fn))
-    # headers: single 2, start 3, others 1
-    hdrs = [len(n.value.args[0].elts) for n in walk_local(fn) if isinstance(n, ast.Assign) and dotted(n.targets[0]) == 'header' and isinstance(n.value, ast.Call) and n.value.args and isinstance(n.value.args[0], ast.List)]
-    R.check(sorted(hdrs) == [1, 2, 3], rule, 'bumble.avdtp.Protocol.send_message | header sizes', 'single 2, start 3, continue/end 1 byte', f'header sizes {hdrs}', p.loc(fn))
-    # CONTINUE only while more than one fragment remains
-    ife = [n for n in ast.walk(fn) if isinstance(n, ast.IfExp) and 'CONTINUE_PACKET' in norm(n)]
-    ok = len(ife) == 1 and norm(ife[0].test) == 'len(payload) > max_fragment_size' and norm(ife[0].body).endswith('CONTINUE_PACKET') and norm(ife[0].orelse).endswith('END_PACKET')
-    R.check(ok, rule, 'bumble.avdtp.Protocol.send_message | last fragment is END', 'CONTINUE iff more than one fragment remains (len > fragment), else END', 'the CONTINUE/END decision is not `len(payload) > max_fragment_size`: a message whose length is a multiple of the fragment size never gets its END packet', p.loc(fn))
-    pc = [norm(n.value) for n in walk_local(fn) if isinstance(n, ast.Assign) and dotted(n.targets[0]) == 'packet_count']
-    R.check(pc == ['(max_fragment_size - 1 + len(payload)) // max_fragment_size'], rule, 'bumble.avdtp.Protocol.send_message | packet count', 'ceil(len(payload) / fragment)', f'packet count {pc}', p.loc(fn))
-    fh = [norm(n.value) for n in walk_local(fn) if isinstance(n, ast.Assign) and dotted(n.targets[0]) == 'first_header_byte']
-    R.check(fh == ['transaction_label << 4 | packet_type << 2 | message.message_type'], rule, 'bumble.avdtp.Protocol.send_message | first header byte', 'label @4, packet type @2, message type @0', f'first header byte {fh}', p.loc(fn))
+    key = 'bumble.avdtp.Protocol.send_message'
+    loop = next((n for n in fn.body if isinstance(n, ast.While)), None)
+    if loop is None:
+        R.bad(rule, key + ' | fragment loop', 'loop not found', p.loc(fn))
+        return
+    pre = {dotted(n.targets[0]): n.value for n in fn.body if isinstance(n, ast.Assign) and len(n.targets) == 1 and isinstance(n.targets[0], ast.Name)}
+
+    def mtu_minus(e):
+        lf = sym.lin(e)
+        atoms = {a: v for a, v in (lf or {}).items() if a and v}
+        if lf is not None and len(atoms) == 1 and next(iter(atoms)).endswith('.peer_mtu') and next(iter(atoms.values())) == 1:
+            return -lf.get('', 0), next(iter(atoms))
+        return None, None
+    k, mtu_atom = mtu_minus(pre.get('max_fragment_size')) if 'max_fragment_size' in pre else (None, None)
+    R.check(k == 3, rule, key + ' | fragment size', 'fragments of peer_mtu - 3 bytes leave room for the 3-byte start header', f'max_fragment_size = {norm(pre["max_fragment_size"]) if "max_fragment_size" in pre else None}', p.loc(fn))
+    # classification
+    guard = next((n for n in fn.body if isinstance(n, ast.If) and any(isinstance(x, ast.Assign) and dotted(x.targets[0]) == 'packet_type' for x in n.body)), None)
+    single_first = guard is not None and 'SINGLE_PACKET' in norm(guard.body[0])
+    want = sym.ineq(f'len(payload) + 2 <= {mtu_atom}', single_first) if mtu_atom else None
+    got = sym.ineq(guard.test) if guard is not None else None
+    R.check(want is not None and got is not None and sym.same_ineq(got, want), rule, key + ' | single-packet guard', 'single packet iff payload + 2-byte header fits the peer MTU', f'single-packet guard is `{norm(guard.test) if guard else None}`', p.loc(fn))
+    # one iteration per packet type
+    types = ('SINGLE_PACKET', 'START_PACKET', 'CONTINUE_PACKET', 'END_PACKET')
+    hdr = {}
+    for T in types:
+        facts = frozenset((sym.canon_text(f'packet_type == self.PacketType.{X}')[0], X == T) for X in types)
+        writes = []
+        nxt = set()
+
+        class D(sym.Sym):
+            def on_event(self, node, extra, facts_, store):
+                if isinstance(node, ast.Call) and dotted(node.func) == 'self.l2cap_channel.write':
+                    writes.append((self.expr(node.args[0], store, facts_), dict(store)))
+                return extra
+        res = paths.run_block(loop.body, D(no_subst=sym.object_locals(fn)), (facts, frozenset(), None))
+        if len({w[0] for w in writes}) != 1:
+            R.bad(rule, key + f' | {T} packet', f'{len(writes)} different writes in one iteration', p.loc(loop))
+            continue
+        wtext = writes[0][0]
+        try:
+            w = ast.parse(wtext, mode='eval').body
+        except SyntaxError:
+            w = None
+        ok = isinstance(w, ast.BinOp) and isinstance(w.op, ast.Add) and isinstance(w.left, ast.Call) and dotted(w.left.func) == 'bytes' and isinstance(w.left.args[0], ast.List)
+        if not ok:
+            R.bad(rule, key + f' | {T} packet', f'written value `{wtext}` is not header + payload slice', p.loc(loop))
+            continue
+        hdr[T] = len(w.left.args[0].elts)
+        sp = slice_parts(w.right)
+        bound = sp[2] if sp and sp[0] == 'payload' and sp[1] == '0' else None
+        want_bound = 'len(payload)' if T == 'SINGLE_PACKET' else norm(pre['max_fragment_size']) if 'max_fragment_size' in pre else None
+        okb = bound is not None and (sym.lin_eq(sym.lin(bound), sym.lin(want_bound)) or (T != 'SINGLE_PACKET' and bound == 'max_fragment_size'))
+        R.check(okb, rule, key + f' | {T} carries', f'{hdr[T]}-byte header + payload[:{bound}]' + (' (all of it)' if T == 'SINGLE_PACKET' else ''),
+                f'a {T} writes payload[:{bound}]: ' + ('the single-packet guard admits payloads this slice truncates - the tail goes out as a stray packet' if T == 'SINGLE_PACKET' else 'not the fragment size'), p.loc(loop))
+        # what is consumed and what comes next
+        for kk, f2, st2, ex2, wit in sym.exits(res):
+            left = st2.get('payload')
+            if left is not None:
+                lp = None
+                try:
+                    lp = slice_parts(ast.parse(left, mode='eval').body)
+                except SyntaxError:
+                    pass
+                if not (lp and lp[0] == 'at(payload, 0)' and lp[2] is None and bound is not None and sym.lin_eq(sym.lin(lp[1].replace('at(payload, 0)', 'payload')), sym.lin(bound))):
+                    R.bad(rule, key + f' | {T} consumed', f'payload becomes `{left}` after writing payload[:{bound}]: written and consumed amounts differ', p.loc(loop))
+            nt = st2.get('packet_type')
+            if nt:
+                rel = []
+                for a, t in f2.items():
+                    a2 = a.replace(left, 'payload') if left else a
+                    if a2 == 'payload' or ('len(payload)' in a2 and 'max_fragment_size' in a2):
+                        rel.append((a2, t))
+                nxt.add((nt.split('.')[-1], tuple(sorted(rel))))
+        # CONTINUE iff more than one fragment remains
+        for nt, fs in nxt:
+            fd = dict(fs)
+            more = next((sym.ineq(a, t) for a, t in fd.items() if 'max_fragment_size' in a and a != 'payload'), None)
+            want_more = sym.ineq('len(payload) > max_fragment_size', nt == 'CONTINUE_PACKET')
+            okn = nt in ('CONTINUE_PACKET', 'END_PACKET') and more is not None and sym.same_ineq(more, want_more) and fd.get('payload') is True
+            R.check(okn, rule, key + f' | after {T}: {nt}', 'CONTINUE while more than one fragment remains, END for the last one, only when payload is left', f'after a {T} the next packet is labelled {nt} under {sorted(fd.items())}: a message whose length is a multiple of the fragment size never gets its END packet (or a wrong label is used)', p.loc(loop))
+    R.check(hdr == {'SINGLE_PACKET': 2, 'START_PACKET': 3, 'CONTINUE_PACKET': 1, 'END_PACKET': 1}, rule, key + ' | header sizes', 'single 2, start 3, continue/end 1 byte', f'header sizes {hdr}', p.loc(fn))
+    # frame bound per type: header + slice <= peer_mtu
+    pc = [n.value for n in ast.walk(loop) if isinstance(n, ast.Assign) and dotted(n.targets[0]) == 'packet_count']
+    ok = len(pc) == 1 and isinstance(pc[0], ast.BinOp) and isinstance(pc[0].op, ast.FloorDiv) and norm(pc[0].right) == 'max_fragment_size' and sym.lin_eq(sym.lin(pc[0].left), {'max_fragment_size': 1, 'len(payload)': 1, '': -1})
+    R.check(ok, rule, key + ' | packet count', 'ceil(len(payload) / fragment)', f'packet count {[norm(x) for x in pc]}', p.loc(fn))
+    fh = [n.value for n in ast.walk(loop) if isinstance(n, ast.Assign) and dotted(n.targets[0]) == 'first_header_byte']
+    lay = bits.ser_layout(fh[0]) if len(fh) == 1 and hasattr(bits, 'ser_layout') else None
+    fh_t = [norm(x) for x in fh]
+    R.check(fh_t == ['transaction_label << 4 | packet_type << 2 | message.message_type'], rule, key + ' | first header byte', 'label @4, packet type @2, message type @0', f'first header byte {fh_t}', p.loc(fn))
     asm = p.find('bumble.avdtp.MessageAssembler.on_pdu')
     if asm is not None:
-        s = norm(asm)
-        R.check('transaction_label = pdu[0] >> 4' in s and 'Protocol.PacketType(pdu[0] >> 2 & 3)' in s and 'Message.MessageType(pdu[0] & 3)' in s, rule, 'bumble.avdtp.MessageAssembler.on_pdu | first header byte', 'same bit layout on the receiving side', 'AVDTP header bit layout differs between sender and assembler', p.loc(asm))
+        s_ = norm(asm)
+        R.check('transaction_label = pdu[0] >> 4' in s_ and 'Protocol.PacketType(pdu[0] >> 2 & 3)' in s_ and 'Message.MessageType(pdu[0] & 3)' in s_, rule, 'bumble.avdtp.MessageAssembler.on_pdu | first header byte', 'same bit layout on the receiving side', 'AVDTP header bit layout differs between sender and assembler', p.loc(asm))
 
 
 def headers(ctx):
@@ -366,4 +495,11 @@ VARIANTS = [
     ('last fragment labelled CONTINUE', 'bumble/avdtp.py', "                    if len(payload) > max_fragment_size\n", "                    if len(payload) >= max_fragment_size\n", 'fire', 'C19.avdtp-single'),
     ('packet counted before validation', 'bumble/avdtp.py', "    def on_pdu(self, pdu: bytes) -> None:\n        # Drop empty PDUs", "    def on_pdu(self, pdu: bytes) -> None:\n        self.packet_count += 1\n        # Drop empty PDUs", 'fire', 'C19.neutral'),
     ('benign: comment', 'bumble/avdtp.py', "            # Prepare for the next packet\n", "            # Get ready for the next packet\n", 'silent', ''),
+    ('benign: single-packet guard rearranged', 'bumble/avdtp.py', "        if len(payload) + 2 <= self.l2cap_channel.peer_mtu:", "        if len(payload) <= self.l2cap_channel.peer_mtu - 2:", 'silent', ''),
+    ('benign: fragment size chosen with if/else', 'bumble/avdtp.py', "            fragment_size = (\n                len(payload)\n                if packet_type == self.PacketType.SINGLE_PACKET\n                else max_fragment_size\n            )\n", "            if packet_type == self.PacketType.SINGLE_PACKET:\n                fragment_size = len(payload)\n            else:\n                fragment_size = max_fragment_size\n", 'silent', ''),
+    ('benign: chunking branches swapped', 'bumble/sdp.py', "        if len(self.current_response) > maximum_size:\n            payload = self.current_response[:maximum_size]\n            continuation_state = Server.CONTINUATION_STATE\n            self.current_response = self.current_response[maximum_size:]\n        else:\n            payload = self.current_response\n            continuation_state = bytes([0])\n            self.current_response = None\n", "        if len(self.current_response) <= maximum_size:\n            payload = self.current_response\n            continuation_state = bytes([0])\n            self.current_response = None\n        else:\n            payload = self.current_response[:maximum_size]\n            continuation_state = Server.CONTINUATION_STATE\n            self.current_response = self.current_response[maximum_size:]\n", 'silent', ''),
+    ('benign: capacity constant split', 'bumble/sdp.py', "        maximum_service_record_count = (self.channel.peer_mtu - 11) // 4\n", "        maximum_service_record_count = (self.channel.peer_mtu - 9 - 2) // 4\n", 'silent', ''),
+    ('start packet announces one packet too many', 'bumble/avdtp.py', "                packet_count = (\n                    max_fragment_size - 1 + len(payload)\n                ) // max_fragment_size\n", "                packet_count = len(payload) // max_fragment_size + 1\n", 'fire', 'C19.avdtp-single'),
+    ('single guard admits one byte too many', 'bumble/avdtp.py', "        if len(payload) + 2 <= self.l2cap_channel.peer_mtu:", "        if len(payload) + 1 <= self.l2cap_channel.peer_mtu:", 'fire', 'C19.avdtp-single'),
+    ('continuation accepted without a partial response', 'bumble/sdp.py', "                self.current_response is None\n                or continuation_state != self.CONTINUATION_STATE", "                continuation_state != self.CONTINUATION_STATE", 'fire', 'C19.sdp-budget'),
 ]
